@@ -81,14 +81,15 @@ class ParseAPI(object):
         pair = parse_colon_prefix(s)
         if pair is None or pair[0] not in "HP":
             return None
-        if pair[0] == "H":
-            try:
+        try:
+            if pair[0] == "H":
                 master_secret = h2b(pair[1])
-            except ValueError:
-                return None
-        else:
-            master_secret = pair[1].encode("utf8")  # type: ignore[assignment]
-        return self._network.keys.bip32_seed(master_secret)
+            else:
+                master_secret = pair[1].encode("utf8")
+            return self._network.keys.bip32_seed(master_secret)
+        except ValueError:
+            # not hex / not encodable text / a master key outside the curve's range
+            return None
 
     def hd_seed(self, s: str) -> Any:
         """
